@@ -725,6 +725,12 @@ func (obj *SparseFloat64MatrixJointIterator) Ok() bool {
          !(obj.s2 == nil || obj.s2.GetFloat64() == float64(0))
 }
 func (obj *SparseFloat64MatrixJointIterator) Next() {
+  // skip positions where all operands are zero; stop when all
+  // iterators are exhausted
+  for obj.next() && !obj.Ok() {
+  }
+}
+func (obj *SparseFloat64MatrixJointIterator) next() bool {
   ok1 := obj.it1.Ok()
   ok2 := obj.it2.Ok()
   obj.s1.ptr = nil
@@ -752,6 +758,7 @@ func (obj *SparseFloat64MatrixJointIterator) Next() {
   } else {
     obj.s2 = ConstFloat64(0.0)
   }
+  return ok1 || ok2
 }
 func (obj *SparseFloat64MatrixJointIterator) Get() (Scalar, ConstScalar) {
   if obj.s1.ptr == nil {
@@ -806,6 +813,12 @@ func (obj *SparseFloat64MatrixJoint3Iterator) Ok() bool {
          !(obj.s3 == nil || obj.s3.GetFloat64() == 0.0)
 }
 func (obj *SparseFloat64MatrixJoint3Iterator) Next() {
+  // skip positions where all operands are zero; stop when all
+  // iterators are exhausted
+  for obj.next() && !obj.Ok() {
+  }
+}
+func (obj *SparseFloat64MatrixJoint3Iterator) next() bool {
   ok1 := obj.it1.Ok()
   ok2 := obj.it2.Ok()
   ok3 := obj.it3.Ok()
@@ -854,6 +867,7 @@ func (obj *SparseFloat64MatrixJoint3Iterator) Next() {
   } else {
     obj.s3 = ConstFloat64(0.0)
   }
+  return ok1 || ok2 || ok3
 }
 func (obj *SparseFloat64MatrixJoint3Iterator) Get() (Scalar, ConstScalar, ConstScalar) {
   if obj.s1.ptr == nil {
